@@ -1816,7 +1816,8 @@ class Mps(MatrixProduct):
             other.scale(other.coeff, inplace=True)
             self.coeff = 1
             other.coeff = 1
-        return super().distance(other)
+        # the common prefactor is not part of the tensors
+        return float(np.abs(self.coeff)) * super().distance(other)
 
 
 def projector(
